@@ -193,6 +193,29 @@ def generate():
                '; '.join(n for n, fn, ps in names if fn in ('connect', 'discover') and len(ps) == 2) + '].')
     out.append('Definition search_sites : list (Z * Z) := [' + '; '.join(n for n, fn, ps in names if fn == 'search_inverters') + '].')
     out.append(f'Definition n_sites : nat := {len(names)}%nat.')
+    # every place in the package that ASSIGNS an attribute named timeout / retries (of any object): the budget stored by the constructor must not be
+    # changed afterwards (setattr / __dict__ tricks are refused)
+    import glob
+    assigns = []
+    for path in sorted(glob.glob(os.path.join(REPO, 'goodwe', '*.py'))):
+        t = ast.parse(open(path).read(), path)
+        owner = {}
+        for c in ast.walk(t):
+            if isinstance(c, ast.ClassDef):
+                for n in c.body:
+                    if isinstance(n, (ast.FunctionDef, ast.AsyncFunctionDef)): owner[n] = c.name
+        for fn in ast.walk(t):
+            if not isinstance(fn, (ast.FunctionDef, ast.AsyncFunctionDef)): continue
+            for x in ast.walk(fn):
+                tg = x.targets if isinstance(x, ast.Assign) else [x.target] if isinstance(x, (ast.AugAssign, ast.AnnAssign)) else x.targets if isinstance(x, ast.Delete) else []
+                for tt in tg:
+                    for el in (tt.elts if isinstance(tt, ast.Tuple) else [tt]):
+                        if isinstance(el, ast.Attribute) and el.attr in ('timeout', 'retries'):
+                            assigns.append(f'{owner.get(fn, os.path.basename(path)[:-3])}.{fn.name}: {ast.unparse(el)}')
+                if isinstance(x, ast.Call) and ast.unparse(x.func) in ('setattr', 'delattr', 'object.__setattr__'):
+                    raise Unsupported(f'flow: {ast.unparse(x)[:80]} in {os.path.basename(path)}')
+                if isinstance(x, ast.Attribute) and x.attr == '__dict__': raise Unsupported(f'flow: __dict__ used in {os.path.basename(path)}:{fn.name}')
+    out.append('Definition budget_assignments : list string := [' + '; '.join('"' + a + '"%string' for a in sorted(assigns)) + '].')
     return '\n'.join(out) + '\n'
 
 
